@@ -151,6 +151,12 @@ package crdt
 //@   tags C04 C11
 //@ func (DocComposite).deleteWithPrefix -> (err)
 //@   modifies sets, storeFailed, corrupt
+//@ // the values are moved to their deleted keys after the iterator over them is closed (a store need not
+//@ // allow writes while it is being iterated: the time-travel replay runs over the in-memory store)
+//@ func (DocComposite).deleteWithPrefix
+//@   assert before call#1 Set: called(Close, 4)
+//@   assert before call#1 Delete: called(Close, 4)
+//@   tags C03 C05
 //@
 //@ // ===== C13/C04: the creating commit of a counter field carries no random nonce (reproducible genesis) =
 //@ extern (corekv.ReaderWriter).Has(s, ctx, k) -> (ok, e)
